@@ -304,6 +304,10 @@ def decode_TEXT(value):
     for atom, charset in atoms:
         if charset is not None:
             atom = atom.decode(charset)
+        elif isinstance(atom, bytes):
+            # decode_header returns the text around an encoded word as
+            # bytes (one byte per code point of the original value).
+            atom = atom.decode('ISO-8859-1')
         decodedvalue += atom
     return decodedvalue
 
